@@ -746,6 +746,11 @@ func postC25(cs []*Ctx, r *Report, tier string) {
 							}
 						}
 					}
+					if !okc {
+						if a2, ok2 := c.callerLengthGuard(i); ok2 {
+							okc, arg = true, a2
+						}
+					}
 					if okc {
 						r.ok("R2", key, c.instrPos(i), "not proven by the compiler; "+arg)
 					} else {
